@@ -254,6 +254,55 @@ func vpH_C16_list_in_single() {
 	vpReach("end")
 }
 
+// a link without an id whose target is also named by another member: two different members (the link
+// has no identity of its own, its target is not its id) - both stay, in every addressing list
+func vpH_C16_link_target_named() {
+	tname := []string{"Object", "Activity", "Actor"}[vpChoice(3)]
+	x := vpNew(vpTypeIndex(tname))
+	vpSetField(x, 0, 0, 'i')
+	target := IRI("https://h.ex/target")
+	link := &Link{Type: MentionType, Href: target}
+	var list ItemCollection
+	order := vpChoice(3)
+	switch order {
+	case 0:
+		list = ItemCollection{link, target}
+	case 1:
+		list = ItemCollection{target, link}
+	default:
+		list = ItemCollection{link, &Object{ID: target, Type: NoteType}, IRI("https://h.ex/other")}
+	}
+	pos := []string{"To", "Bto", "CC", "BCC", "Audience"}[vpChoice(5)]
+	_ = OnObject(x, func(o *Object) error {
+		switch pos {
+		case "To":
+			o.To = list
+		case "Bto":
+			o.Bto = list
+		case "CC":
+			o.CC = list
+		case "BCC":
+			o.BCC = list
+		default:
+			o.Audience = list
+		}
+		return nil
+	})
+	FlattenProperties(x)
+	got := vpGetListField(x, pos)
+	cell := tname + "." + pos + "/" + string([]byte{'0' + byte(order)})
+	vpAssert("link-target-named/all-kept/"+cell, len(got) == len(list))
+	if len(got) == len(list) {
+		li := 0
+		if order == 1 {
+			li = 1
+		}
+		vpAssert("link-target-named/link-stays/"+cell, got[li] == Item(link))
+		vpAssert("link-target-named/other-is-the-target/"+cell, IsIRI(got[1-li]) && got[1-li].GetLink() == target)
+	}
+	vpReach("end")
+}
+
 // every object, actor and activity type NAME of the vocabulary (written out here, not taken from the
 // library's own lists) on the holder: the embedded values with an id become their ids
 var vpC16Names = []ActivityVocabularyType{"Object", "Article", "Audio", "Document", "Event", "Image", "Note", "Page", "Place", "Profile",
